@@ -53,6 +53,12 @@ HARNESSES = {
     "level_sort_sorts_by_descending_name_length": ("sort", False, ["C02"], "real Vec<ModuleFilter>::level_sort: descending name length, default entry last, a permutation (the list invariant assumed by Verus unit spec, lemma_longest_prefix)", "3 entries, name lengths 0..3"),
     "max_level_is_the_maximum": ("sort", False, ["C02"], "real LogSpecification::max_level == maximum of the entries' filters (all 216 filter triples)", "3 entries"),
     "max_level_of_the_empty_specification_is_off": ("sort", False, ["C02"], "real LogSpecification::max_level of an empty list is Off", "0 entries"),
+    "restart_number_member": ("restart", False, ["C10", "C01"], "real restart_number reads a well-formed .restart-NNNN discriminant", "catalogue entry"),
+    "restart_number_short": ("restart", False, ["C10", "C01"], "real restart_number does not panic on a trimmed sibling name (regression check for F13)", "catalogue entry"),
+    "restart_number_not_numeric": ("restart", False, ["C10", "C01"], "real restart_number: non-numeric discriminant is ignored", "catalogue entry"),
+    "restart_number_multibyte": ("restart", False, ["C10", "C01"], "real restart_number: multi-byte character inside the four positions", "catalogue entry"),
+    "restart_number_no_marker": ("restart", False, ["C10", "C01"], "real restart_number: no marker", "catalogue entry"),
+    "restart_number_plus_sign": ("restart", False, ["C10", "C01"], "real restart_number: '+123' is read as 123 (str::parse accepts a sign)", "catalogue entry"),
     "ts_infix_member": ("tsinfix", False, ["C10", "C06"], "real ts_infix_from_path", "catalogue entry: standard timestamp name"),
     "ts_infix_short_name": ("tsinfix", False, ["C10", "C06"], "real ts_infix_from_path does not panic on a shorter name (regression check for F5)", "catalogue entry: number-named file"),
     "ts_infix_restart_sibling": ("tsinfix", False, ["C10", "C06"], "real ts_infix_from_path", "catalogue entry: .restart sibling"),
